@@ -283,6 +283,22 @@ def check_params(env, label, prog, rw):
             raised = type(e).__name__
         env.check_true(f"{name}.invalid-value[{label}]", raised == "CircuitCompilationError",
                        note="a reflectivity / loss of 1.5 held by a Parameter gives CircuitCompilationError on use", model=dict(program=label, raised=raised, component=prog[bad[0]]))
+        # values that are invalid because they are no numbers at all - among them FALSY ones (None, '', an empty list, the complex zero): the same error on use
+        for bv in (None, "", [], "high", -0.25):
+            try:
+                P[bad[0]].set(bv)
+            except Exception:  # noqa: BLE001
+                continue            # the Parameter itself refuses the value
+            try:
+                c.U_full
+                raised = None
+            except lw.CircuitCompilationError:
+                raised = "CircuitCompilationError"
+            except Exception as e:  # noqa: BLE001
+                raised = type(e).__name__
+            env.check_true(f"{name}.invalid-value[{label};{bv!r}]", raised == "CircuitCompilationError",
+                           note="a reflectivity / loss Parameter holding a non-number (also a falsy one) or a negative value gives CircuitCompilationError on use",
+                           model=dict(program=label, raised=raised, value=repr(bv), component=prog[bad[0]]))
 
 
 def _same(env, A, B):
